@@ -25,19 +25,32 @@ from ..core import INV64, Reject, SubCheck, Violation, rejecting, rel_err
 from ..oracle import einsum_value, tn_tensors
 
 RULE = ("cases are 2D lattices 2x2..4x4 (open / cyclic in x and/or y, bond 1-3, real/complex, flat or bra-ket layered "
-        "PEPS norms/overlaps, optional stored exponent), 3D lattices 2x2x2..2x3x3, and arbitrary connected graphs of "
-        "3-8 tensors with a drawn contraction path, x every boundary mode / sequence of directions / option set the code "
-        "accepts, all seeds explicit; oracle numpy.einsum of the whole network; non-trivial = lattice >= 3x3 or layered "
-        "or >= 2 directions in the sequence (graphs: >= 5 tensors and a loop); for the cap clause: the cap is binding")
+        "PEPS norms/overlaps, optional stored exponent), 3D lattices 2x2x2..2x2x3 (thorough to 3x3x3), and connected graphs "
+        "of 2-9 tensors (loops, dangling legs, size-1 bonds, 1-2 tensors per site) with a drawn contraction path, x every "
+        "boundary mode / sequence of directions / option set the code path accepts, all seeds explicit; oracle numpy.einsum "
+        "of the whole network; non-trivial = bond >= 2 and at least one inward step happens and (lattice >= 3x3 or layered "
+        "or >= 2 directions); graphs: >= 1 compression happened; cap clause: the cap is binding and >= 1 compressed bond "
+        "is seen")
 ASSUMPTIONS = [
-    "numpy.einsum (integer sublist form, own greedy pairwise order) is the trusted denotation of a network",
-    "'untruncated' = cutoff=0.0 and max_bond >= D_layer**(c*(max(L)-1)) (c=2 when a direction is cyclic): the number of "
-    "original lattice edges crossing any cut a boundary scheme compresses",
-    "max_separation >= 1 (with 0 the last 'boundary' has no open index; no caller or test uses it)",
-    "options are only drawn for the modes whose signature accepts them (read from the code); 'full-bond' + "
-    "equalize_norms raises NotImplementedError, which is accepted as a rejection",
+    "numpy.einsum (integer sublist form, own greedy pairwise order; numpy.tensordot pairwise reduction beyond 50 labels) "
+    "is the trusted denotation of a network",
+    "'untruncated' = cutoff=0.0 and max_bond >= the number of original edges crossing any cut the scheme compresses: 2D "
+    "D_layer**(c*(max(L)-1)) (c=2 when a direction is cyclic), one-sided sweeps D_layer**(c*rows), HOTRG "
+    "D_layer**(c*max(L)), 3D D**(c*a*b) with a, b the two largest sides",
+    "every boundary handed to a compressor keeps an open index and >= 2 sites: max_separation >= 1, a one-sided patch "
+    "is never the whole lattice, start borders leave >= 2 rows and columns (no caller or test does otherwise; the 1D "
+    "compressors refuse one-site networks, BP-type modes are documented inexact without dangling indices)",
+    "options are only drawn for the modes whose code path accepts them; accepted refusals: NotImplementedError "
+    "('full-bond' + equalize_norms), numba TypingError of 'dm' on a boundary site without open index, LinAlgError of "
+    "the ALS solve of 'local-fit'",
     "randomised / fitted boundary modes (src*, srcmps*, fit*) are exact with probability one when the sketch / bond is "
     ">= the exact rank; they are always given an explicit seed",
+    "paths that divide by simple-update / BP bond weights on a loopy boundary (canonize=True of HOTRG with its "
+    "smudge=1e-12, projector/su/l2bp on 3D planes or periodic rows) are exact only up to the spread of those weights: "
+    "they are given generic gaussian tensors (conditioning by construction, tolerance unchanged)",
+    "contract_compressed with max_bond=None is run 'untruncated' with cutoff=1e-15 (cutoff=0.0 switches compression off)",
+    "plaquette environments and the truncating branch of 'full-bond' only on open lattices; CTMRG only in its default "
+    "'projector' mode; bra/ket layered lattices periodic in both directions or none (PEPS constructor)",
 ]
 
 TOL = INV64
@@ -120,6 +133,8 @@ def lattice_candidates(tier, max_chi, allow_cyclic=True, allow_layers=True, min_
                         # the PEPS constructor infers periodicity from the array shapes and only recognises
                         # lattices periodic in both directions (or none) with non-trivial dimensions
                         continue
+                    if layers == 2 and D == 3 and max(Lx, Ly) >= 3:
+                        continue  # bra-ket bonds of size 9: a single boundary step already costs minutes in some modes
                     lat = {"Lx": Lx, "Ly": Ly, "D": D, "cx": cx, "cy": cy, "layers": layers}
                     if chi_exact(lat) > max_chi:
                         continue
@@ -143,8 +158,11 @@ def lattice_candidates(tier, max_chi, allow_cyclic=True, allow_layers=True, min_
 def s_lattice2d(draw, tier, max_chi=256, min_D=1, **kw):
     cands = lattice_candidates(tier, max_chi, min_D=min_D, **kw)
     # bond dimension first (D=1 lattices are cheap and numerous but nearly trivial), then a geometry that fits the budget
-    D = draw(st.sampled_from([d for d in (1, 2, 2, 2, 2, 2, 2, 3, 3, 3) if d >= min_D]))
+    # (Hypothesis favours the head of a sampled_from list: the interesting values come first)
+    D = draw(st.sampled_from([d for d in (2, 3, 2, 2, 3, 2, 2, 3, 2, 1) if d >= min_D]))
     pool = [c for c in cands if c["D"] == D] or [c for c in cands if c["D"] == 2] or cands
+    pool = sorted(pool, key=lambda c: (min(c["Lx"], c["Ly"]) < 3, max(c["Lx"], c["Ly"]) < 3, c["Lx"] + c["Ly"], c["Lx"],
+                                       not (c["cx"] or c["cy"]), c["layers"]))
     lat = dict(draw(st.sampled_from(pool)))
     lat["seed"] = draw(A.seeds)
     lat["kind"] = draw(st.sampled_from(KINDS))
@@ -304,10 +322,21 @@ MODES_1D = ["direct", "dm", "zipup", "zipup-first", "zipup-oversample", "sdc", "
 MODES_AG = ["local-early", "local-late", "projector", "su", "superorthogonal", "l2bp"]
 MODES_2D = ["mps", "full-bond", "projector2d"]
 CTMRG_MODES = ["projector"]
+# belief-propagation / simple-update flavoured modes are exact only while every boundary tensor keeps a dangling
+# index (DESIGN S note): a sweep that swallows the last plane leaves a closed, loopy 2D network.  On a loopy boundary
+# (3D planes, periodic 2D rows) they divide by bond weights whose spread sets the round-off (1e-10 seen with the nearly
+# rank-one 'shifted' tensors, 1e-15 with gaussian ones): such cases get gaussian tensors.
+BP_MODES = ("l2bp3d", "l2bp", "su", "superorthogonal")
+
+
+def condition_for(mode, lat):
+    if mode in BP_MODES and (lat.get("cx") or lat.get("cy")):
+        lat["kind"] = "gauss"
+    return lat
 SEEDED = {"src", "src-first", "src-oversample", "srcmps", "srcmps-first", "srcmps-oversample", "fit", "fit-zipup",
           "fit-projector", "fit-oversample"}
 # modes that allocate sketches / guesses of size max_bond: keep the exact bond small
-HEAVY = SEEDED | {"full-bond", "sdc", "sdc-oversample"}
+HEAVY = SEEDED | {"full-bond", "sdc", "sdc-oversample", "dm"}  # ('dm' works with squared bonds)
 
 # sub-check name -> mode names drawn inside it (aliases share one sub-check)
 B2D_GROUPS = {
@@ -424,7 +453,7 @@ def s_b2d(group):
         mode = draw(st.sampled_from(modes))
         heavy = mode in HEAVY
         max_chi = (64 if tier == "quick" else 256) if heavy else (256 if tier == "quick" else 729)
-        lat = draw(s_lattice2d(tier, max_chi=max_chi, allow_cyclic=True))
+        lat = condition_for(mode, draw(s_lattice2d(tier, max_chi=max_chi, allow_cyclic=True)))
         case = {"lat": lat, "mode": mode, "sequence": draw(s_sequence2d()), "opts": draw(s_boundary_opts(mode, lat)),
                 "final_contract": draw(st.sampled_from([True, True, False])), "inplace": draw(st.sampled_from([False, False, True])),
                 "chi_extra": draw(st.sampled_from([0, 0, 1, 5])), "max_bond_none": False}
@@ -436,6 +465,19 @@ def s_b2d(group):
         return case
 
     return lambda tier: strat(tier)
+
+
+def accepted_refusals(mode):
+    """Exception types a boundary call may raise before returning anything without breaking the property:
+    NotImplementedError ('full-bond' + equalize_norms, 'peps' on periodic 3D lattices) and, for the density-matrix
+    compressor only, numba's TypingError: 'dm' cannot start its sweep on a boundary site that has no open index (a corner
+    of a patch whose rows are all merged) -- np.trace of a 0-d array inside a jitted kernel (DESIGN 2.5 lists both)."""
+    types = [NotImplementedError]
+    if mode == "dm":
+        from numba.core.errors import TypingError
+
+        types.append(TypingError)
+    return tuple(types)
 
 
 def boundary_kwargs(case):
@@ -455,7 +497,7 @@ def run_b2d(case):
     kw = boundary_kwargs(case)
     if mode == "mps" and chi is None and kw.get("compress_late") is False:
         kw.pop("compress_late")  # the early branch compares bond sizes with max_bond
-    with rejecting(NotImplementedError, tag="unsupported:"):
+    with rejecting(*accepted_refusals(mode), tag="unsupported:"):
         res = tn.contract_boundary(max_bond=chi, cutoff=0.0, mode=mode, sequence=case["sequence"],
                                    final_contract=case["final_contract"], inplace=case["inplace"], **kw)
     got = denote(res)
@@ -565,7 +607,7 @@ def s_mode_lat(draw, tier, modes=None, binding=False, **latkw):
     mode = draw(st.sampled_from(modes or MODE_POOL))
     heavy = mode in HEAVY
     max_chi = (64 if tier == "quick" else 256) if heavy else (256 if tier == "quick" else 729)
-    lat = draw(s_lattice2d(tier, max_chi=max_chi, **latkw))
+    lat = condition_for(mode, draw(s_lattice2d(tier, max_chi=max_chi, **latkw)))
     return mode, lat
 
 
@@ -674,7 +716,7 @@ def run_from_side(case):
     tn = build2d(lat)
     ref, mag = reference(tn)
     chi = max(chi_exact(lat), chi_rows(lat, swept_rows(case, lat))) + int(case["chi_extra"])
-    with rejecting(NotImplementedError, tag="unsupported:"):
+    with rejecting(*accepted_refusals(mode), tag="unsupported:"):
         res = call_from_side(tn, case, chi, 0.0)
     if not isinstance(res, Q().TensorNetwork):
         raise Violation("returned-none" if res is None else "not-a-network", mode=mode, spelling=case["spelling"])
@@ -714,7 +756,7 @@ def run_mps_sweep(case):
     ref, mag = reference(tn)
     kw = boundary_kwargs(case)
     fn = tn.contract_mps_sweep_ if case["spelling"] == "inplace" else tn.contract_mps_sweep
-    with rejecting(NotImplementedError, tag="unsupported:"):
+    with rejecting(*accepted_refusals(mode), tag="unsupported:"):
         res = fn(chi_exact(lat), cutoff=0.0, direction=case["direction"], mode=mode, **kw)
     e = check_value(denote(res), ref, mag, mode=mode, entry="mps_sweep", strip=bool(kw.get("strip_exponent")),
                     equalize=repr(kw.get("equalize_norms", "auto")))
@@ -765,7 +807,7 @@ def run_around(case):
     chi = max(1, min(exact - 1, int(1 + case["chi_frac"] * (exact - 1)))) if binding else exact
     cutoff = 1e-10 if binding else 0.0
     seq = case["sequence"]
-    with rejecting(NotImplementedError, tag="unsupported:"):
+    with rejecting(*accepted_refusals(mode), tag="unsupported:"):
         if case["entry"] == "boundary":
             res = tn.contract_boundary(max_bond=chi, cutoff=cutoff, mode=mode, around=around, sequence=seq,
                                        inplace=case["inplace"], **kw)
@@ -832,7 +874,7 @@ def run_cap_side(case):
     n = swept_rows(case, lat)
     exact = dlayer(lat) ** n  # bond between neighbouring columns of the merged rows
     chi = binding_chi(case["chi_frac"], exact)
-    with rejecting(NotImplementedError, tag="unsupported:"):
+    with rejecting(*accepted_refusals(mode), tag="unsupported:"):
         res = call_from_side(tn, case, chi, float(case["cutoff"]))
     if not isinstance(res, Q().TensorNetwork):
         raise Violation("returned-none" if res is None else "not-a-network", mode=mode, spelling=case["spelling"])
@@ -891,7 +933,7 @@ def run_cap_boundary(case):
     exact = dlayer(lat) ** 2
     chi = binding_chi(case["chi_frac"], exact)
     fn = tn.contract_boundary if case["entry"] == "boundary" else tn.contract_ctmrg
-    with rejecting(NotImplementedError, tag="unsupported:"):
+    with rejecting(*accepted_refusals(mode), tag="unsupported:"):
         res = fn(max_bond=chi, cutoff=float(case["cutoff"]), mode=mode, sequence=case["sequence"], final_contract=False,
                  inplace=case["inplace"], **kw)
     if not isinstance(res, Q().TensorNetwork):
@@ -980,7 +1022,7 @@ def run_env_rowcol(case):
     chi = binding_chi(case["chi_frac"], dlayer(lat) ** 2) if binding else exact
     cutoff = 1e-10 if binding else 0.0
     store = {} if case["given_dict"] else None
-    with rejecting(NotImplementedError, tag="unsupported:"):
+    with rejecting(*accepted_refusals(mode), tag="unsupported:"):
         if entry == "x":
             envs = tn.compute_x_environments(max_bond=chi, cutoff=cutoff, mode=mode, envs=store, **kw)
         elif entry == "y":
@@ -1089,7 +1131,7 @@ def run_env_plaq(case):
     e0 = float(np.real(tn.exponent))
     kw = boundary_kwargs(case)
     xb, yb = int(case["x_bsz"]), int(case["y_bsz"])
-    with rejecting(NotImplementedError, tag="unsupported:"):
+    with rejecting(*accepted_refusals(mode), tag="unsupported:"):
         penvs = tn.compute_plaquette_environments(x_bsz=xb, y_bsz=yb, max_bond=chi_exact(lat), cutoff=0.0, mode=mode, **kw)
     want = {((i, j), (xb, yb)) for i in range(lat["Lx"] - xb + 1) for j in range(lat["Ly"] - yb + 1)}
     if lat.get("cx") or lat.get("cy"):
@@ -1297,15 +1339,15 @@ B3D_GROUPS = {"peps": ["peps"], "projector3d": ["projector3d"], "l2bp3d": ["l2bp
 
 @st.composite
 def s_lattice3d(draw, tier, min_D=1, allow_cyclic=True):
-    shapes = [(2, 2, 2), (2, 2, 3), (2, 3, 2), (3, 2, 2), (2, 2, 3), (2, 3, 2), (3, 2, 2)]
+    shapes = [(2, 2, 3), (2, 3, 2), (3, 2, 2), (2, 2, 3), (2, 3, 2), (3, 2, 2), (2, 2, 2)]
     if tier != "quick":
         shapes += [(2, 3, 3), (3, 2, 3), (3, 3, 2), (2, 2, 4), (3, 3, 3)]
     Lx, Ly, Lz = draw(st.sampled_from(shapes))
-    D = draw(st.sampled_from([d for d in (1, 2, 2, 2, 2, 3) if d >= min_D]))
+    D = draw(st.sampled_from([d for d in (2, 2, 3, 2, 2, 1) if d >= min_D]))
     if D == 3 and Lx * Ly * Lz > 8:
         D = 2
     lat = {"Lx": Lx, "Ly": Ly, "Lz": Lz, "D": D, "cx": False, "cy": False, "cz": False, "layers": 1}
-    if allow_cyclic and D <= 2 and draw(st.integers(0, 3)) == 0:
+    if allow_cyclic and D <= 2 and Lx * Ly * Lz <= 18 and draw(st.integers(0, 3)) == 0:
         # periodic only along a direction of length >= 3 (length 2 would repeat a label on one tensor)
         for d, L in zip("xyz", (Lx, Ly, Lz)):
             if L >= 3:
@@ -1402,7 +1444,7 @@ def run_b3d(case):
     final = case["final_contract"] and not binding
     if binding:
         o.pop("strip_exponent", None)
-    with rejecting(NotImplementedError, tag="unsupported:"):
+    with rejecting(*accepted_refusals(mode), tag="unsupported:"):
         res = tn.contract_boundary(max_bond=chi, cutoff=cutoff, mode=mode, sequence=case["sequence"], final_contract=final,
                                    inplace=case["inplace"], **o)
     nd = 6 if case["sequence"] is None else len(case["sequence"])
@@ -1420,11 +1462,6 @@ def run_b3d(case):
     swept = will_sweep(lat, case["sequence"], o, default=DIRS3)
     cls.append("swept" if swept else "no-step")
     return {"nt": lat["D"] >= 2 and swept and (not binding or nb > 0), "cls": cls, "err": e}
-
-
-# belief-propagation / simple-update flavoured modes are exact only while every boundary tensor keeps a dangling
-# index (DESIGN S note): a sweep that swallows the last plane leaves a closed, loopy 2D network
-BP_MODES = ("l2bp3d", "l2bp", "su", "superorthogonal")
 
 
 @st.composite
@@ -2018,78 +2055,78 @@ def run_ag(case):
 SUBCHECKS = []
 for _g in B2D_GROUPS:
     SUBCHECKS.append(SubCheck(
-        "b2d." + _g, run_b2d, s_b2d(_g), examples=(30, 700), shards=(1, 4),
+        "b2d." + _g, run_b2d, s_b2d(_g), examples=(100, 500), shards=(1, 4),
         rule=f"contract_boundary(mode in {B2D_GROUPS[_g]}) x sequence (None, any sub-sequence of the 4 directions, short "
              "codes) x accepted options (canonize, equalize_norms, strip_exponent, compress_late, sweep_reverse, "
              "layer_tags, lazy, max_separation, max_unfinished, start borders, final_contract, inplace) with "
              "max_bond >= exact bond and cutoff 0 == einsum value; nt: D>=2 and (>=3x3 or layered or >=2 directions)"))
 
 SUBCHECKS += [
-    SubCheck("b2d.from_side", run_from_side, s_from_side, examples=(60, 1500), shards=(1, 4),
+    SubCheck("b2d.from_side", run_from_side, s_from_side, examples=(150, 750), shards=(1, 4),
              rule="contract_boundary_from_{xmin,xmax,ymin,ymax}[_] / contract_boundary_from[_] over a drawn patch (>=2 rows, "
                   ">=2 columns), every mode, untruncated: the returned network (incl. exponent) denotes the same value; "
                   "nt: D>=2 and (>=3 rows swept or layered or >=3x3)"),
-    SubCheck("b2d.mps_sweep", run_mps_sweep, s_mps_sweep, examples=(30, 700), shards=(1, 4),
+    SubCheck("b2d.mps_sweep", run_mps_sweep, s_mps_sweep, examples=(60, 300), shards=(1, 4),
              rule="contract_mps_sweep[_](direction None/4 sides) x modes x options, untruncated == einsum; nt as RULE"),
-    SubCheck("b2d.around", run_around, s_around, examples=(50, 1200), shards=(1, 4),
+    SubCheck("b2d.around", run_around, s_around, examples=(120, 600), shards=(1, 4),
              rule="contract_boundary / contract_ctmrg with around=1-2 sites on open lattices >=3x3: the bounding square is "
                   "untouched; untruncated: network denotes the same value; binding cap: bonds along the boundaries <= cap; "
                   "nt: D>=2 (and >=1 compressed bond seen when binding)"),
 ]
 
 SUBCHECKS += [
-    SubCheck("env2d.rowcol", run_env_rowcol, s_env_rowcol, examples=(60, 1500), shards=(1, 4),
+    SubCheck("env2d.rowcol", run_env_rowcol, s_env_rowcol, examples=(120, 600), shards=(1, 4),
              rule="compute_environments / compute_{xmin,xmax,ymin,ymax}_environments / compute_x|y_environments (modes, dense, "
                   "layer_tags, equalize_norms, sub-ranges, caller-supplied dict): exactly one key per row; untruncated: every "
                   "env | excluded part == whole and envs[min,i] | row i | envs[max,i] == whole; binding cap: bonds along every "
                   "stored boundary <= cap; nt as RULE"),
-    SubCheck("env2d.plaquette", run_env_plaq, s_env_plaq, examples=(40, 1000), shards=(1, 4),
+    SubCheck("env2d.plaquette", run_env_plaq, s_env_plaq, examples=(100, 500), shards=(1, 4),
              rule="compute_plaquette_environments(x_bsz, y_bsz in 1..2(3), first_contract, second_dense, modes), untruncated: one "
                   "key per plaquette position and every env | plaquette sites == whole; nt as RULE"),
 ]
 
 SUBCHECKS += [
-    SubCheck("hotrg2d", run_hotrg2d, s_hotrg2d, examples=(60, 1500), shards=(1, 4),
+    SubCheck("hotrg2d", run_hotrg2d, s_hotrg2d, examples=(150, 750), shards=(1, 4),
              rule="contract_hotrg[_] (sequence, canonize/gauge_power, equalize_norms, strip_exponent, lazy, max_separation, "
                   "max_unfinished, final_contract) untruncated == einsum; coarse_grain_hotrg[_](x|y): size halves (odd row kept), "
                   "one tensor per coarse site, value kept; binding cap: bonds across the coarse-grained direction <= cap; nt as RULE"),
-    SubCheck("ctmrg2d", run_ctmrg2d, s_ctmrg2d, examples=(50, 1200), shards=(1, 4),
+    SubCheck("ctmrg2d", run_ctmrg2d, s_ctmrg2d, examples=(100, 500), shards=(1, 4),
              rule="contract_ctmrg[_] (mode projector and others, sequence, canonize, lazy, equalize_norms, strip_exponent, "
                   "max_separation, final_contract) untruncated == einsum; nt as RULE"),
 ]
 
 for _g in B3D_GROUPS:
     SUBCHECKS.append(SubCheck(
-        "b3d." + _g, run_b3d, s_b3d(_g), examples=(30, 600), shards=(1, 4),
+        "b3d." + _g, run_b3d, s_b3d(_g), examples=(80, 400), shards=(1, 4),
         rule=f"3D contract_boundary(mode in {B3D_GROUPS[_g]}) x any sub-sequence of the six directions x options (canonize, "
              "canonize_interleave, compress_late, lazy, equalize_norms, strip_exponent, max_separation, max_unfinished, "
              "final_contract, inplace) on 2x2x2..2x2x3 (thorough to 2x3x3), periodic where a side is >=3: untruncated == "
              "einsum; binding cap on open lattices: bonds along every boundary plane <= cap; nt: D>=2"))
 SUBCHECKS += [
-    SubCheck("b3d.from_side", run_side3d, s_side3d, examples=(50, 1000), shards=(1, 4),
+    SubCheck("b3d.from_side", run_side3d, s_side3d, examples=(120, 600), shards=(1, 4),
              rule="3D contract_boundary_from[_] over the whole lattice from each of the 6 sides (network returned, value kept, "
                   "binding cap obeyed), _compute_plane_envs (every env | rest == whole), contract_peps_sweep; nt: D>=2"),
-    SubCheck("rg3d", run_rg3d, s_rg3d, examples=(50, 1000), shards=(1, 4),
+    SubCheck("rg3d", run_rg3d, s_rg3d, examples=(120, 600), shards=(1, 4),
              rule="3D contract_hotrg / coarse_grain_hotrg / contract_ctmrg / contract_simple_sweep untruncated == einsum, "
                   "coarse graining halves the side and obeys a binding cap; nt: D>=2"),
 ]
 
 SUBCHECKS += [
-    SubCheck("compressed.tree", run_compressed, s_compressed, examples=(120, 3000), shards=(1, 4),
+    SubCheck("compressed.tree", run_compressed, s_compressed, examples=(300, 1500), shards=(1, 4),
              rule="contract_compressed along a drawn path / ContractionTree / preset on connected graphs of 4-7(9) tensors x "
                   "options (tree_gauge_distance, compress_mode, compress_late, compress_span, compress_matrices, "
                   "compress_min_size, canonize distances, gauge_boundary_only, gauges, equalize_norms, strip_exponent, "
                   "output order, inplace): callbacks record every compression; each bond compressed is <= max_bond right after; "
                   "when every compression was lossless a priori (min(bond, rest-left, rest-right) <= max_bond, cutoff 0) the "
                   "result == einsum; nt: >=1 compression happened"),
-    SubCheck("compressed.around", run_around_ag, s_around_ag, examples=(100, 2500), shards=(1, 4),
+    SubCheck("compressed.around", run_around_ag, s_around_ag, examples=(250, 1250), shards=(1, 4),
              rule="contract_around[_] (tags, any) / contract_around_center / _corner with the same callbacks and oracle; nt: >=1 "
                   "compression"),
-    SubCheck("compress_between", run_between, s_between, examples=(120, 3000), shards=(1, 4),
+    SubCheck("compress_between", run_between, s_between, examples=(300, 1500), shards=(1, 4),
              rule="compress_between(mode basic / virtual-tree / full-bond / local-fit, absorb, canonize distances, "
                   "equalize_norms) on an edge of a random graph: bond <= max_bond afterwards; max_bond >= bond and cutoff 0: the "
                   "network denotes the same tensor; nt: bond>=2 and >=3 tensors"),
-    SubCheck("ag_compress", run_ag, s_ag, examples=(100, 2500), shards=(1, 4),
+    SubCheck("ag_compress", run_ag, s_ag, examples=(250, 1250), shards=(1, 4),
              rule="tensor_network_ag_compress (and the 1D/2D front ends forwarding to it) x 5 methods on graphs with 1-2 tensors "
                   "per site: one tensor per site, every site-site bond <= max_bond; max_bond >= full bond, cutoff 0: same tensor; "
                   "nt: bond>=2 and (a two-layer site or a loop)"),
@@ -2097,7 +2134,7 @@ SUBCHECKS += [
 
 for _g in CAP_GROUPS:
     SUBCHECKS.append(SubCheck(
-        "cap2d." + _g, run_cap2d, s_cap2d(_g), examples=(50, 1200), shards=(1, 4),
+        "cap2d." + _g, run_cap2d, s_cap2d(_g), examples=(120, 600), shards=(1, 4),
         rule=f"binding cap, modes {CAP_GROUPS[_g]}: (side) one-sided sweep over a patch with 1 <= cap < D_layer**rows and cutoff in "
              "{0,1e-10,1e-3}: every bond along the handed-over boundary <= cap (and the boundary exists); (boundary) "
              "contract_boundary / contract_ctmrg(final_contract=False) on open lattices with cap < D_layer**2: every bond along a "
